@@ -23,7 +23,10 @@ RULE = ("a scenario is one VCF file plus a history of commands run on it for rea
         "each on the previous output). Files: (a) every call shape enumerated by TLC (Gen_C13: GT of ploidy 1-4 with '.', "
         "both separators, every presence pattern of PS/HP/PQ; pairs of samples; records without GT), history unphase;unphase; "
         "(b) seeded random multi-record / multi-sample files mixing those shapes, records without GT, files without samples, "
-        "string-typed PS; (c) diploid files that `whatshap phase` accepts (unsorted, missing and partially missing GTs, "
+        "string-typed PS; (b') the same random files with non-ASCII text in ##source, a header Description, the ID column, INFO and "
+        "FORMAT string values and sample names, stored as UTF-8 (VCFv4.3 or older) or as ISO-8859-1 (bytes that are not valid "
+        "UTF-8), unphase writing to a path or, through the subcommand's main(), to a standard output whose encoding is "
+        "latin-1 / ascii / cp1252 / utf-8 / utf-16; (c) diploid files that `whatshap phase` accepts (unsorted, missing and partially missing GTs, "
         "pre-existing PS/HP/PQ) under every command history up to length 3-4 over {unphase, phase --tag PS, phase --tag HP} x "
         "target-sample subsets emitted by TLC from VcfHistory (a side `unphase` of the source precedes every phase so that "
         "U(f) is on record). Non-trivial = the input carries phase information (a '|' or a PS/HP/PQ value) next to another "
@@ -32,6 +35,9 @@ ASSUMPTIONS = [
     "TLC; VcfModel.tla is the reading of the statement: 'phase information' = '|' separators and PS/HP/PQ values; 'nothing else' = "
     "fixed columns, other FORMAT fields (keys, order, raw values), allele multiset per call, record order, other header definitions",
     "the statement demands no PS/HP/PQ *value*; whether the three header definitions disappear is recorded but not judged",
+    "'unchanged' is judged on bytes: the driver escapes every byte >= 0x80 before projecting, so fixed columns, other FORMAT values, "
+    "the '#CHROM' line and the other header lines must come out byte for byte whatever the file's character encoding is "
+    "(htslib treats VCF text as bytes; VCF <= 4.2 prescribes no encoding, 4.3 prescribes UTF-8); '##phasing' is dropped by design",
     "the driver's text projection (40 lines, independent of pysam) is trusted; field values are chosen so that htslib re-serialises them verbatim",
     "`whatshap phase` steps use a phased VCF of the same sites as the only phase input; phase itself is judged by C04/C09, not here",
 ]
@@ -87,10 +93,40 @@ def project_call(fmt, d):
             "rest": [f"{k}={d.get(k, '.')}" for k in fmt if k != "GT" and k not in PHASE_TAGS]}
 
 
-def project_vcf(path):
-    """VCF text -> abstract file of VcfModel.tla (plus 'phasedefs': which of the HP/PS/PQ header definitions exist)."""
+def ascii_view(path):
+    """Byte-transparent ASCII copy of a text file: every byte >= 0x80 becomes the escape \\xNN (Latin-1 decoding is a
+    bijection between bytes and code points), so equality of strings read from the view is equality of the raw bytes,
+    whatever the encoding of the file (UTF-8, ISO-8859-1, ...) and whatever the locale of this process is."""
+    with open(path, "rb") as fh:
+        data = fh.read()
+    view = path + ".view"
+    with open(view, "wb") as fh:
+        fh.write(data.decode("latin-1").encode("ascii", "backslashreplace"))
+    return view
+
+
+def raw_header(path):
+    """(meta, cols): the '##' lines of the file except the FORMAT definitions of HP/PS/PQ and '##phasing', and the
+    '#CHROM' line (sample names), both as escaped byte strings (see ascii_view)."""
+    meta, cols = [], ""
+    with open(path, "rb") as fh:
+        for raw in fh:
+            line = raw.rstrip(b"\r\n").decode("latin-1").encode("ascii", "backslashreplace").decode("ascii")
+            if line.startswith("##"):
+                if not re.match(r"##FORMAT=<ID=(HP|PS|PQ)[,>]", line) and not line.startswith("##phasing="):
+                    meta.append(line)
+            elif line.startswith("#"):
+                cols = line
+            else:
+                break
+    return meta, cols
+
+
+def project_vcf(path, raw=False):
+    """VCF text -> abstract file of VcfModel.tla (plus 'phasedefs': which of the HP/PS/PQ header definitions exist).
+    raw=True: project the byte-transparent ASCII view of the file (strings compare equal iff the bytes are equal)."""
     from wv import world
-    header, samples, recs = world.read_vcf_text(path)
+    header, samples, recs = world.read_vcf_text(ascii_view(path) if raw else path)
     hdr, defs = [], []
     for h in header:
         m = re.match(r"##(FORMAT|INFO|FILTER|contig)=<ID=([^,>]+)", h)
@@ -108,14 +144,38 @@ def project_vcf(path):
     return {"hdr": sorted(hdr), "recs": out}, sorted(defs), samples
 
 
-def run_unphase_file(src, dst):
-    """-> exception name or '' ; stdout VCF of `whatshap unphase` goes to dst"""
-    from whatshap.cli.unphase import run_unphase
+def run_unphase_file(src, dst, stdout_encoding=None):
+    """-> exception name or '' ; stdout VCF of `whatshap unphase` goes to dst.
+    stdout_encoding: run the subcommand's main() with sys.stdout = a text stream of that encoding on top of dst (what
+    `PYTHONIOENCODING=<enc> whatshap unphase f > dst` resp. a non-UTF-8 locale gives), instead of run_unphase(src, dst)."""
+    from whatshap.cli import unphase as mod
+    if stdout_encoding is None:
+        try:
+            mod.run_unphase(src, dst)
+            return ""
+        except Exception as e:  # expected behaviour is "never"; the trace spec judges
+            return type(e).__name__
+    import argparse
+    import io
+    import sys
+    old, exc = sys.stdout, ""
+    rawfh = open(dst, "wb")
+    sys.stdout = io.TextIOWrapper(rawfh, encoding=stdout_encoding)
     try:
-        run_unphase(src, dst)
-        return ""
-    except Exception as e:  # expected behaviour is "never"; the trace spec judges
-        return type(e).__name__
+        mod.main(argparse.Namespace(vcf=src))
+    except Exception as e:
+        exc = type(e).__name__
+    finally:
+        mine, sys.stdout = sys.stdout, old
+        try:
+            mine.flush()
+        except Exception as e:
+            exc = exc or type(e).__name__
+        try:
+            rawfh.close()
+        except Exception:
+            pass
+    return exc
 
 
 def run_phase_file(src, dst, tag, samples, phase_inputs, reference=False, writer_hook=None, **kw):
@@ -317,6 +377,43 @@ def random_file(rng, i):
     return sc
 
 
+LATIN1_WORDS = ["caf\u00e9", "M\u00fcller", "na\u00efve", "se\u00f1al", "Gr\u00f6\u00dfe", "\u00b5mol", "\u00e5\u00e6\u00f8", "d\u00e9j\u00e0_vu"]
+WIDE_WORDS = ["\u03a9mega", "\u53d8\u5f02", "\u0416\u0443\u043a", "na\u00efve\u2013x", "\U0001f9ec"]  # not in Latin-1: UTF-8 files only
+
+
+def decorate_encoding(rng, sc):
+    """Non-ASCII text wherever VCF allows free text (##source, header Description, ID column, INFO and FORMAT string values,
+    sample names), the file stored as UTF-8 (VCFv4.3 text) or as ISO-8859-1 (bytes that are not valid UTF-8; VCF <= 4.2
+    prescribes no encoding), unphase writing to a path or to a standard output of some other encoding."""
+    codec = rng.choice(["utf-8", "latin-1"])
+    words = LATIN1_WORDS + (WIDE_WORDS if codec == "utf-8" else [])
+    w = lambda: rng.choice(words)  # noqa: E731
+    where = set(rng.sample(["source", "desc", "id", "info", "fmt", "sample"], rng.randint(1, 6)))
+    sc = dict(sc, kind="encoding")
+    sc["enc"] = {"codec": codec, "version": "4.3" if codec == "utf-8" and rng.random() < 0.5 else rng.choice(["4.1", "4.2"]),
+                 "stdout": rng.choice([None, "latin-1", "ascii", "cp1252", "utf-8", "utf-16"])}
+    extra = list(sc.get("extra_header", []))
+    if "source" in where:
+        extra.append("##source=" + w())
+    extra.append('##INFO=<ID=ANN,Number=1,Type=String,Description="%s">' % ((w() + " annotation") if "desc" in where else "ann"))
+    sc["extra_header"] = extra
+    if "sample" in where and sc["samples"]:
+        sc["samples"] = [n + "_" + w() if rng.random() < 0.7 else n for n in sc["samples"]]
+    recs = []
+    for r in sc["recs"]:
+        r = dict(r)
+        if "id" in where and rng.random() < 0.7:
+            r["id"] = "rs" + w()
+        if "info" in where and rng.random() < 0.7:
+            r["info"] = ";".join(([] if r.get("info", ".") in (".", "") else [r["info"]]) + ["ANN=" + w()])
+        if "fmt" in where and "XX" in r["fmt"]:
+            k = r["fmt"].index("XX")
+            r["calls"] = [[(w() if j == k and rng.random() < 0.7 else v) for j, v in enumerate(c)] for c in r["calls"]]
+        recs.append(r)
+    sc["recs"] = recs
+    return sc
+
+
 def phaseable_file(rng, ns, pre):
     """Diploid biallelic SNV file `whatshap phase` accepts; pre in none/PS/HP/mixed = pre-existing phase information.
     Returns (records, truth) with truth[s][r] = [block_pos, 'a|b'] or None: the phasing offered as phase input."""
@@ -394,6 +491,10 @@ def scenarios(ctx):
     n = 300 if q else 12000
     scs += [random_file(rng, i) for i in range(n)]
     ctx.notes["random_files"] = n
+    # ---- (b') the same files with non-ASCII text, stored as UTF-8 / ISO-8859-1, output to a path or a non-UTF-8 stdout ----
+    n = 120 if q else 3000
+    scs += [decorate_encoding(rng, random_file(rng, i)) for i in range(n)]
+    ctx.notes["encoding_files"] = n
     # ---- (c) command histories from the VcfHistory state machine on phase-able files ----
     hs = [h for h in emit_histories(ctx, 2, 3 if q else 4, inits="Small") if any(o["op"] == "U" for o in h)]
     ctx.notes["tlc_emitted_histories_with_unphase"] = len(hs)
@@ -409,7 +510,8 @@ def scenarios(ctx):
 # ==============================================================================================
 # driving the real commands
 def _synthetic_phaser(src, dst, rng):
-    with open(src) as fi, open(dst, "w") as fo:
+    # Latin-1 on both sides = byte-transparent whatever the encoding of the file is
+    with open(src, encoding="latin-1", newline="\n") as fi, open(dst, "w", encoding="latin-1", newline="\n") as fo:
         for line in fi:
             if line.startswith("#") or not line.strip():
                 fo.write(line)
@@ -443,9 +545,19 @@ def drive(sc):
 def _drive(sc, tmp):
     from wv import world
     paths = {0: os.path.join(tmp, "f0.vcf")}
-    write_scenario_vcf(paths[0], sc)
-    f0, defs, samples = project_vcf(paths[0])
-    assert samples == sc["samples"] and len(f0["recs"]) == len(sc["recs"])
+    enc = sc.get("enc")
+    if enc:
+        # the same text, stored in the scenario's character encoding (VCF <= 4.2 prescribes none; htslib handles bytes)
+        write_scenario_vcf(paths[0] + ".txt", sc)
+        with open(paths[0] + ".txt") as fi, open(paths[0], "wb") as fo:
+            fo.write(fi.read().replace("##fileformat=VCFv4.2", "##fileformat=VCFv" + enc.get("version", "4.2"), 1)
+                     .encode(enc["codec"]))
+    else:
+        write_scenario_vcf(paths[0], sc)
+    f0, defs, samples = project_vcf(paths[0], raw=True)
+    assert len(samples) == len(sc["samples"]) and len(f0["recs"]) == len(sc["recs"])
+    assert enc or samples == sc["samples"]
+    stdout_encoding = enc.get("stdout") if enc else None
     evs = [{"ev": "Load", "id": 0, "file": f0, "phasedefs": defs}]
     truth_path = None
     if sc.get("truth"):
@@ -459,10 +571,17 @@ def _drive(sc, tmp):
         dst = nxt
         nxt += 1
         paths[dst] = os.path.join(tmp, f"f{dst}.vcf")
-        exc = run_unphase_file(paths[src], paths[dst])
-        e = {"ev": "Unphase", "src": src, "dst": dst, "exc": exc, "out": {"hdr": [], "recs": []}, "phasedefs": []}
+        exc = run_unphase_file(paths[src], paths[dst], stdout_encoding)
+        e = {"ev": "Unphase", "src": src, "dst": dst, "exc": exc, "out": {"hdr": [], "recs": []}, "phasedefs": [],
+             "srcmeta": [], "meta": [], "srccols": "", "cols": ""}
         if not exc:
-            e["out"], e["phasedefs"], _ = project_vcf(paths[dst])
+            try:
+                e["out"], e["phasedefs"], _ = project_vcf(paths[dst], raw=True)
+            except (IndexError, ValueError, KeyError):
+                exc = e["exc"] = "OutputIsNotVcfText"   # e.g. the records re-encoded as UTF-16: judged like a failure
+        if not exc:
+            e["srcmeta"], e["srccols"] = raw_header(paths[src])
+            e["meta"], e["cols"] = raw_header(paths[dst])
             has_u.add(src)
         evs.append(e)
         return dst if not exc else None
@@ -481,7 +600,7 @@ def _drive(sc, tmp):
             _synthetic_phaser(paths[cur], paths[dst], random.Random(op.get("seed", 1)))
             e = {"ev": "Phase", "src": cur, "dst": dst, "tag": "PS", "targets": list(range(1, len(sc["samples"]) + 1)), "exc": "",
                  "out": {"hdr": [], "recs": []}}
-            e["out"], _, _ = project_vcf(paths[dst])
+            e["out"], _, _ = project_vcf(paths[dst], raw=True)
             evs.append(e)
             cur = dst
         else:
@@ -495,7 +614,7 @@ def _drive(sc, tmp):
             e = {"ev": "Phase", "src": cur, "dst": dst, "tag": op["tag"], "targets": op["T"], "exc": exc,
                  "out": {"hdr": [], "recs": []}}
             if not exc:
-                e["out"], _, _ = project_vcf(paths[dst])
+                e["out"], _, _ = project_vcf(paths[dst], raw=True)
             evs.append(e)
             cur = dst if not exc else None
         if cur is None:
@@ -588,7 +707,9 @@ MANIFEST = {
             "space of call shapes (ploidy 1-4, '.', './.', '0/.', '.|1', both separators x presence patterns of PS/HP/PQ, sample pairs, "
             "records without GT) and all command histories up to length 3-4; the driver writes each as VCF text, runs the real "
             "run_unphase / run_whatshap from the working tree along the history, projects every output with its own text parser, and "
-            "TLC judges each step: Succeeds, NoPhaseLeft, NothingElse, Idempotent, CommutesWithPhase.",
+            "TLC judges each step: Succeeds, NoPhaseLeft, NothingElse, HeaderVerbatim, Idempotent, CommutesWithPhase. All strings are "
+            "byte-transparent (bytes >= 0x80 escaped), and a family of files carries non-ASCII text as UTF-8 or ISO-8859-1 with the "
+            "output going to a path or to a standard output of another encoding.",
     "note": "trusted: TLC, VcfModel.tla as the reading of the statement, the text projection in wv/props/c13.py; beyond the enumerated "
             "one-record shapes multi-record files are seeded samples; header definitions of HP/PS/PQ are not judged (statement says 'value')",
     "technique": "TLA+ relation + state machine of commands model-checked with TLC; TLC-enumerated inputs and histories replayed on the real CLI functions; TLC trace validation",
